@@ -16,7 +16,9 @@ def plans(tier):
         ("w321", pc.consts(S3, weight="W321", win=2, passive=True, thr=2, mark=True, outcomes=("ok", "fail"))),
         ("w2101-4", pc.consts(S3, N=4, N0=4, weight="W2101", win=1, passive=False, mark=True, outcomes=("ok",))),
         ("lc-hold", pc.consts(["least_connections"], N=3, N0=3, weight="W111", win=1, passive=False, mark=True, maxhold=2, outcomes=("ok", "hold"))),
-        ("admin", pc.consts(S3, N=4, N0=2, weight="W2101", win=1, passive=False, mark=True, admin=True, outcomes=("ok",))),
+        ("admin", pc.consts(["round_robin", "least_connections"], N=3, N0=2, weight="W111", win=1, passive=False, mark=True, admin=True, clients=(1,), outcomes=("ok",))),
+        ("admin-wrr", pc.consts(["weighted_round_robin"], N=3, N0=2, weight="W111", win=1, passive=False, mark=False, admin=True, clients=(1,), outcomes=("ok",))),
+        ("admin-w321", pc.consts(["round_robin", "least_connections"], N=3, N0=2, weight="W321", win=1, passive=False, mark=False, admin=True, clients=(1,), outcomes=("ok",))),
     ]
 
 
